@@ -70,6 +70,11 @@ def run(ctx):
         ctx.guard(embedders, ctx, cfg, fs, 'E.embedders')
         import docwalk
         ctx.guard(docwalk.cursor_advance, ctx, cfg, fs, 'C.cursor', r'render_console$|Doc::first_line$')
+        ctx.guard(docwalk.payload_writers, ctx, cfg, fs, 'C.cursor')
+    # derive: the doc comment of a derived parser is split into description / header / footer exactly as documented, each section
+    # yielding to its own explicit annotation only (translation validation members of C17 that carry doc comments)
+    import c17
+    ctx.guard(c17.members_agree, ctx, 0, 'D.derive-sections', lambda mod, kind, name: 'docs' in mod or mod in ('b_usage', 'b_group_fallback'))
 
 def decor(ctx, cfg, fs):
     """a `[default: ..]` / decoration line is attached to the item it decorates: append_meta pushes HelpItem::DecorSuffix only
